@@ -38,6 +38,64 @@ theorem C13_addPoint_increasing_ieee (pts : List (Rat × Rat)) (hpts : ∀ p ∈
 end MpVerif.C13
 
 namespace MpVerif.C13
+theorem rndD_intCast (m : Int) (hm : |m| ≤ (2 : Int) ^ 53) : rndD (m : Rat) = (m : Rat) := by
+  have := rndP_fix 53 (-1074) (by norm_num) m 0 hm (by norm_num)
+  simpa [rndD] using this
+
+theorem rndD_half (m : Int) (hm : |2 * m + 1| ≤ (2 : Int) ^ 53) : rndD ((m : Rat) + 1/2) = (m : Rat) + 1/2 := by
+  have h := rndP_fix 53 (-1074) (by norm_num) (2 * m + 1) (-1) hm (by norm_num)
+  have e : ((2 * m + 1 : Int) : Rat) * (2 : Rat) ^ (-1 : Int) = (m : Rat) + 1/2 := by
+    push_cast; rw [zpow_neg_one]; ring
+  rw [e] at h
+  exact h
+
+/-- **The IEEE instance computes the integrality shortcut exactly** on integers of magnitude below `2^52`:
+`x0 ⊕ j = x0 + j` and consecutive integers pass the `1e-4` keep test -/
+theorem C13_intOK_ieee (z : Int) (B : Nat) (hb : |z| + (B : Int) < (2 : Int) ^ 52) : IntOK ieee (z : Rat) B := by
+  constructor
+  · intro j hj
+    show rndD ((z : Rat) + (j : Rat)) = (z : Rat) + (j : Rat)
+    have e : (z : Rat) + (j : Rat) = ((z + (j : Int) : Int) : Rat) := by push_cast; rfl
+    rw [e]
+    apply rndD_intCast
+    have : |z + (j : Int)| ≤ |z| + (j : Int) := by
+      have := abs_add_le z (j : Int); rwa [abs_of_nonneg (by omega : (0 : Int) ≤ (j : Int))] at this
+    have hj' : (j : Int) ≤ (B : Int) := by exact_mod_cast hj
+    have h52 : (2 : Int) ^ 52 ≤ (2 : Int) ^ 53 := by norm_num
+    omega
+  · intro j hj
+    unfold keepCond
+    show rndD ((z : Rat) + (j : Rat) + eps4) < (z : Rat) + ((j + 1 : Nat) : Rat)
+    have e : (z : Rat) + (j : Rat) = ((z + (j : Int) : Int) : Rat) := by push_cast; rfl
+    have hle : (z : Rat) + (j : Rat) + eps4 ≤ ((z + (j : Int) : Int) : Rat) + 1/2 := by
+      rw [e]; have : eps4 ≤ (1/2 : Rat) := by decide +kernel
+      linarith
+    have h1 := rndD_mono hle
+    have habs : |z + (j : Int)| ≤ |z| + (j : Int) := by
+      have := abs_add_le z (j : Int); rwa [abs_of_nonneg (by omega : (0 : Int) ≤ (j : Int))] at this
+    have hj' : (j : Int) + 1 ≤ (B : Int) := by exact_mod_cast hj
+    have hm : |2 * (z + (j : Int)) + 1| ≤ (2 : Int) ^ 53 := by
+      have h2 : |2 * (z + (j : Int)) + 1| ≤ 2 * |z + (j : Int)| + 1 := by
+        have := abs_add_le (2 * (z + (j : Int))) 1
+        rw [abs_mul, abs_one] at this
+        simpa using this
+      have h53 : (2 : Int) ^ 53 = 2 * (2 : Int) ^ 52 := by norm_num
+      omega
+    rw [rndD_half _ hm] at h1
+    have : ((z + (j : Int) : Int) : Rat) + 1/2 < (z : Rat) + ((j + 1 : Nat) : Rat) := by
+      push_cast; linarith
+    exact lt_of_le_of_lt h1 this
+
+/-- **Exactness at the integers for the arithmetic the driver executes**: integer `x0`, `|x0| + N < 2^52` -/
+theorem C13_int_exact_ieee (f : Fn) (z : Int) (N : Nat) (hb : |z| + (N : Int) < (2 : Int) ^ 52) (r : PL)
+    (h : intPoints ieee f (z : Rat) N 0 [] = .ok r) (j : Nat) (hj : j < N) :
+    ∃ v, f.eval ((z : Rat) + (j : Rat)) = .fin v ∧ plEvalR r ((z : Rat) + (j : Rat)) = v :=
+  C13_int_exact_lawful ieee f (z : Rat) N (C13_intOK_ieee z N hb) r h j hj
+
+/-- non-vacuity: the IEEE shortcut on `x0 = -1`, `N = 4` for `f(x) = x` -/
+example : (intPoints ieee idFn ((-1 : Int) : Rat) 4 0 []).toOption = some [(2, 2), (1, 1), (0, 0), (-1, -1)] := by
+  decide +kernel
+
 /-- non-vacuity of `C13_increasing_ieee`: the breakpoints of the concrete record `idFn` are doubles, and the run of the
 float-rounding counterexample succeeds with two breakpoints -/
 example : ∀ b ∈ idFn.bps, rndD b = b := by
